@@ -57,7 +57,7 @@ func hsNegotiated(h string) bool {
 func hsComplete(h string) bool {
 	switch h {
 	case "wrong_line", "line_nonrequest", "no_versions", "bad_versions", "line_garbage_frame",
-		"request_wrong_code", "open_with_request", "request_no_code", "code_without_request", "old_versions", "near_line":
+		"request_wrong_code", "open_with_request", "request_no_code", "code_without_request", "old_versions", "near_line", "empty_then_request":
 		return true
 	}
 	return false
@@ -65,7 +65,7 @@ func hsComplete(h string) bool {
 
 var hostileHandshakes = []string{"valid", "valid", "valid", "split", "unknown_comp", "extra_versions",
 	"wrong_line", "wrong_line2", "partial_line", "no_line", "line_garbage_frame", "line_nonrequest", "no_versions", "bad_versions", "silent", "line_only",
-	"request_wrong_code", "open_with_request", "request_no_code", "code_without_request", "old_versions", "old_versions", "near_line", "near_line"}
+	"request_wrong_code", "open_with_request", "request_no_code", "code_without_request", "old_versions", "old_versions", "near_line", "near_line", "empty_then_request"}
 
 var hostileSteps = []string{"open", "open", "open_data", "data", "close", "window", "batch_open_close", "nested_batch", "dup_open",
 	"unknown_data", "unknown_window", "unknown_close", "garbage_frame", "truncated_frame", "huge_len", "bitflip_open", "window_neg", "window_huge",
@@ -198,6 +198,13 @@ func (h *hostileRun) handshakeBytes(p HostilePeer) []byte {
 		return append(line, req(in)...)
 	case "wrong_line":
 		return append([]byte("GET / HTTP/1.1\n"), valid...)
+	case "empty_then_request":
+		// one or more empty frames before a perfectly good connect request: the first frame is not a request
+		b := append([]byte{}, line...)
+		for k := 0; k <= (p.StartUs+len(p.Steps))%3; k++ {
+			b = append(b, 0, 0, 0, 0)
+		}
+		return append(b, valid...)
 	case "near_line":
 		// first lines that begin like the protocol line and are not it
 		lines := []string{"SpecMPX/10\n", "SpecMPX/1x\n", "SpecMPX/1\r\n", "SpecMPX/1 GET / HTTP/1.1\n", "SpecMPX/1.0\n", " SpecMPX/1\n", "SpecMPX/1\x00\n"}
